@@ -176,7 +176,7 @@ class C16(Check):
             "(d) lexical boundaries: ~150 spellings at the limits of every literal rule (decimal / hexadecimal / B / binary / float / string / identifier; "
             "widths 8, 32, 64, 128 bits and beyond, malformed separators, escapes, stray characters) x 39 positions that treat a literal specially.  "
             "Non-trivial = the input is not accepted as a valid program (diagnostics path) or exercises a host context.")
-    assumptions = ["`mscript compile <file> --quick` with a 10 s limit per input", "inputs < 4 kB", "arbitrary byte soup is not covered"]
+    assumptions = ["`mscript compile <file> --quick` with a 10 s limit per input (4 s for nesting towers in the quick tier)", "inputs < 4 kB", "arbitrary byte soup is not covered"]
     chunksize = 32
     quick_cap_s = 45
     thorough_cap_s = 30 * 60
@@ -216,10 +216,24 @@ class C16(Check):
                         yield ("m", rel, i, "insert", t)
 
         lits = lexical_literals()
-        ls = [("L0-nesting-towers", [[c] for c in towers()]),
-              ("L0b-lexical-boundaries", [("x", c, i) for i in range(len(lits)) for c in range(len(LEX_CTX))]),
+        ls = [("L0-nesting-towers+lexical-boundaries", [[c] for c in towers()] + [("x", c, i) for i in range(len(lits)) for c in range(len(LEX_CTX))]),
               ("L1-grammar-k<=2-all-hosts", gram(2, HOSTS, pre, list(ROOTS))),
-              (f"L2-grammar-k<={k}-module-host", gram(k, ["module", "fn"], pre_q[:2] if tier == "quick" else pre, list(ROOTS)))]
+              ]
+        if tier == "quick":
+            def rot():
+                # every derivation with k <= 3 at module level, and once more in a host / prelude combination that rotates over the others
+                others = [(h, p) for h in HOSTS[1:] for p in ("int", "list")]
+                i = 0
+                for root in ROOTS:
+                    for text in derivations(root, 3):
+                        yield ("g", root, text, "module", "none")
+                        h, p = others[i % len(others)]
+                        i += 1
+                        yield ("g", root, text, h, p)
+            ls.append(("L2-grammar-k<=3-module-host+rotating-host", rot()))
+            ls.append(("L2b-grammar-k<=4-expressions-in-a-method", gram(4, ["method"], ["int"], ["value"])))
+        else:
+            ls.append((f"L2-grammar-k<={k}-module-host", gram(k, ["module", "fn"], pre, list(ROOTS))))
         if tier == "quick":
             ls.append(("L3-token-mutation-6-smallest-files-structural-alphabet", muts(files[:6], pestgen.STRUCTURAL)))
         else:
@@ -261,7 +275,8 @@ class C16(Check):
             return {"outcome": "inexpressible", "nontrivial": False}
         d = driver.fresh_dir()
         driver.write_files(d, {"x.ms": src})
-        res = driver.run(["compile", "x.ms", "--quick"], d, timeout=10)
+        # the quick tier gives a nesting tower 4 s (the known exponential case needs far more than 10 s, everything else far less than 1 s)
+        res = driver.run(["compile", "x.ms", "--quick"], d, timeout=4 if (case[0] == "t" and os.environ.get("VERIF_TIER_") == "quick") else 10)
         viol = []
         if res.cls in ("ok",):
             outcome = "accepted"
